@@ -117,8 +117,12 @@ def states_for(line, kind, seed):
     if hasmem:
         rl = [r for r in rl if r not in ('esi', 'edi')] if 'edi*4' not in line else [r for r in rl if r != 'esi']
     import random
-    rnd = random.Random(seed * 131 + len(line))
-    vals = V32 + [rnd.getrandbits(32), rnd.getrandbits(32)]
+    # six fixed pseudo-random 32-bit values per form on top of the boundary alphabet: the enumeration is the same for every
+    # VERIF_SEED (a seed-dependent value could show a listed defect through a location no listed signature names)
+    vals = list(V32)
+    for k in range(3):
+        rnd = random.Random(k * 131 + len(line))
+        vals += [rnd.getrandbits(32), rnd.getrandbits(32)]
     flagsets = [dict((f, 0) for f in FLAGS), dict((f, 1) for f in FLAGS)]
     reads_flags = mn in ('adc', 'sbb', 'rcl', 'rcr', 'cmc', 'lahf', 'pushfd', 'pushfw', 'loope', 'loopne', 'aaa', 'aas', 'daa', 'das') or kind.startswith('fl-') or \
         (mn.startswith('j') and mn not in ('jmp', 'jecxz')) or mn.startswith('set') or mn.startswith('cmov')
